@@ -83,7 +83,9 @@ def gen_cases(rng, tier):
                "cache": rng.choice(["on", "on", "off", "reset"]), "reset_at": rng.randint(1, 10),
                # a second walk: at this step the fog is replaced by a fresh one while the frontier cache of the abandoned
                # walk is kept (0 = never)
-               "refog_at": rng.choice([0, 0, 2, 3, 5, 8])}
+               "refog_at": rng.choice([0, 0, 2, 3, 5, 8]),
+               # a bystander: another walk (own fog, own cache) over another trie of the same shape, advanced alternately
+               "bystander": rng.random() < 0.35}
 
 
 def plist(l):
@@ -129,7 +131,7 @@ def run_case(case):
             if use_cache:
                 try:
                     cached = cache.get(common.vary(p, True))
-                    res.emit("fog.cget %s" % nibstr(p), "hit %d %s" % (regs[id(cached[0])], nibstr(cached[1])))
+                    res.emit("fog.cget %s" % nibstr(p), "hit %d %s" % (regs.get(id(cached[0]), -1), nibstr(cached[1])))
                 except KeyError:
                     res.emit("fog.cget %s" % nibstr(p), "miss")
             try:
@@ -137,23 +139,23 @@ def run_case(case):
                     line = "hx.trav 0 %s" % nibstr(p)
                     node = trie.traverse(common.vary(p, True))
                 else:
-                    line = "hx.travfrom 0 %d %s" % (regs[id(cached[0])], nibstr(cached[1]))
+                    line = "hx.travfrom 0 %d %s" % (regs.get(id(cached[0]), -1), nibstr(cached[1]))
                     node = trie.traverse_from(cached[0], cached[1])
                 res.emit(line, "node " + hexlib.fmt_ann(node))
                 if cached is not None:
                     # raw level: the cached (possibly stale) parent's children read from the database as it is now
-                    res.emit("hx.travfromd %d %s" % (regs[id(cached[0])], nibstr(cached[1])), "node " + hexlib.fmt_ann(node))
+                    res.emit("hx.travfromd %d %s" % (regs.get(id(cached[0]), -1), nibstr(cached[1])), "node " + hexlib.fmt_ann(node))
             except TraversedPartialPath as e:
                 res.emit(line, hexlib.fmt_traverse(lambda: (_ for _ in ()).throw(e)))
                 if cached is not None:
-                    res.emit("hx.travfromd %d %s" % (regs[id(cached[0])], nibstr(cached[1])),
+                    res.emit("hx.travfromd %d %s" % (regs.get(id(cached[0]), -1), nibstr(cached[1])),
                              hexlib.fmt_traverse(lambda: (_ for _ in ()).throw(e)))
                 node = e.simulated_node
                 res.tags.add("simulated-node-used")
             except MissingTraversalNode as e:
                 res.emit(line, hexlib.fmt_exc(e))
                 if cached is not None:
-                    res.emit("hx.travfromd %d %s" % (regs[id(cached[0])], nibstr(cached[1])), hexlib.fmt_exc(e))
+                    res.emit("hx.travfromd %d %s" % (regs.get(id(cached[0]), -1), nibstr(cached[1])), hexlib.fmt_exc(e))
                 res.emit("hx.wstep 0 %s %d" % (nibstr(p), 1 if use_cache else 0), hexlib.fmt_exc(e))
                 res.emit("hx.wdstep 0 %s %d" % (nibstr(p), 1 if use_cache else 0), hexlib.fmt_exc(e))
                 if cached is None:
@@ -204,6 +206,50 @@ def run_case(case):
         nsteps += 1
         return True
 
+    # the bystander walk: a trie with the same keys and other values (same prefixes, hence the same cache keys, other nodes),
+    # in its own database; own fog and own TrieFrontierCache; judged without the model
+    by = None
+    if case.get("bystander"):
+        from trie import HexaryTrie
+        other = HexaryTrie({})
+        omodel = {}
+        for op in case["ops"]:
+            k = bytes.fromhex(op[1])
+            if op[0] == "set" and op[2]:
+                other.set(k, bytes.fromhex(op[2]) + b"#")
+                omodel[k] = bytes.fromhex(op[2]) + b"#"
+            else:
+                other.delete(k)
+                omodel.pop(k, None)
+        by = {"trie": other, "model": omodel, "fog": HexaryTrieFog(), "cache": TrieFrontierCache(), "met": {}, "done": False}
+        res.tags.add("bystander-walk")
+
+    def by_step():
+        if by is None or by["done"]:
+            return
+        try:
+            try:
+                bp = tuple(by["fog"].nearest_unknown(()))
+            except PerfectVisibility:
+                by["done"] = True
+                return
+            try:
+                cn, seg = by["cache"].get(bp)
+            except KeyError:
+                bnode = by["trie"].traverse(bp)
+            else:
+                bnode = by["trie"].traverse_from(cn, seg)
+            by["fog"] = by["fog"].explore(bp, bnode.sub_segments)
+            if bnode.sub_segments:
+                by["cache"].add(bp, bnode, bnode.sub_segments)
+            else:
+                by["cache"].delete(bp)
+            if bnode.value:
+                by["met"][bp + tuple(bnode.suffix)] = bytes(bnode.value)
+        except Exception as e:  # noqa
+            by["done"] = True
+            res.fail("bystander-walk-wrong", "a second walk with its own fog and cache over an unchanging trie raised %r" % (e,))
+
     keep = []            # keep node objects alive so that id() stays unique
     done = False
     step_no = 0
@@ -234,6 +280,7 @@ def run_case(case):
         if not walk_step(item[1], item[2]):
             done = True
             break
+        by_step()
     guard = 0
     while not done and not res.oracle:
         guard += 1
@@ -242,6 +289,7 @@ def run_case(case):
             break
         if not walk_step("nu", ()):
             break
+        by_step()
     if not res.oracle:
         if not fog.is_complete:
             res.fail("fog-incomplete", "walk ended without a complete fog")
@@ -259,6 +307,14 @@ def run_case(case):
                          % (k, v, met.get(_nib(k))))
         if not mutated and met != {_nib(k): v for k, v in final.items()}:
             res.fail("walk-not-exact", "unchanging trie: met %d pairs, contents have %d" % (len(met), len(final)))
+    if by is not None and not res.oracle:
+        for _ in range(3000):
+            if by["done"]:
+                break
+            by_step()
+        if not res.oracle and by["met"] != {_nib(k): v for k, v in by["model"].items()}:
+            res.fail("bystander-walk-wrong", "a second walk with its own fog and cache over an unchanging trie met %r, the trie holds %r"
+                     % (sorted(by["met"].items()), sorted(by["model"].items())))
     res.tags.add("cache:" + case["cache"])
     res.tags.add("prune" if case["prune"] else "noprune")
     res.tags.add("mutated" if mutated else "static")
